@@ -94,6 +94,8 @@ pub trait ScpiDevice:
         // Clear event registers
         self.get_register_mut::<Operation>().clear_event();
         self.get_register_mut::<Questionable>().clear_event();
+        // Clear error/event queue
+        self.clear_errors();
         Ok(())
     }
 
